@@ -297,9 +297,9 @@ func init() {
 		Required:    req,
 		Families: func(c *mon.Config) []mon.Family {
 			return []mon.Family{
-				{Name: "patterns", N: len(c15Offsets) * len(c15Patterns) * c.Pick(100, 6000), Run: c15Patterned},
-				{Name: "long-reclaim", N: c.Pick(4, 64), Run: c15Long},
-				{Name: "two-live-bitmaps", N: c.Pick(300, 30000), Run: c15TwoLive},
+				{Name: "patterns", Env: 4, N: len(c15Offsets) * len(c15Patterns) * c.Pick(100, 6000), Run: c15Patterned},
+				{Name: "long-reclaim", Env: 1, N: c.Pick(4, 64), Run: c15Long},
+				{Name: "two-live-bitmaps", Env: 4, N: c.Pick(300, 30000), Run: c15TwoLive},
 				{Name: "tail>=2^31-bits", N: c.Pick(0, 1) * b2i(c.Base() != "386"), Run: c15HugeTail}, // 1 GiB: thorough only, not in a 32-bit address space
 			}
 		},
